@@ -1604,8 +1604,40 @@ var readingFuncs = map[string]bool{
 	"strings.EqualFold": true, "strings.Compare": true,
 }
 
+// immutableStd: values of these standard-library types cannot be changed through any of their
+// methods (reflect.Type, *regexp.Regexp); a package-level variable of such a type that is only
+// ever assigned in its declaration or in init() is a named constant.
+func immutableStd(t types.Type) bool {
+	if p, ok := t.(*types.Pointer); ok {
+		t = p.Elem()
+	}
+	n, ok := t.(*types.Named)
+	if !ok || n.Obj().Pkg() == nil {
+		return false
+	}
+	switch n.Obj().Pkg().Path() + "." + n.Obj().Name() {
+	case "reflect.Type", "regexp.Regexp", "time.Duration", "time.Location":
+		return true
+	}
+	return false
+}
+
+// inInit: the innermost function declaration around the node at the top of the stack is init()
+func inInit(stack []ast.Node) bool {
+	for i := len(stack) - 1; i >= 0; i-- {
+		if fd, ok := stack[i].(*ast.FuncDecl); ok {
+			return fd.Recv == nil && fd.Name.Name == "init"
+		}
+		if _, ok := stack[i].(*ast.FuncLit); ok {
+			return false
+		}
+	}
+	return false
+}
+
 func (an *analysis) readOnlyVar1(o types.Object) bool {
-	if o.Exported() || !plainBytes(o.Type()) || o.Pkg() == nil {
+	immutable := immutableStd(o.Type())
+	if o.Exported() || !(plainBytes(o.Type()) || immutable) || o.Pkg() == nil {
 		return false
 	}
 	lp := an.l.pkgs[o.Pkg().Path()]
@@ -1657,6 +1689,31 @@ func (an *analysis) readOnlyVar1(o types.Object) bool {
 			}
 			if i < 0 {
 				ok = false
+				return true
+			}
+			if as, isAs := stack[i].(*ast.AssignStmt); isAs && inInit(stack) {
+				for _, l := range as.Lhs {
+					if l == cur && cur == ast.Node(id) {
+						return true // initialised in init()
+					}
+				}
+			}
+			if immutable {
+				// only a new value (outside init) or its address being taken makes it state
+				switch p := stack[i].(type) {
+				case *ast.AssignStmt:
+					for _, l := range p.Lhs {
+						if l == cur {
+							ok = false
+						}
+					}
+				case *ast.UnaryExpr:
+					if p.Op == token.AND {
+						ok = false
+					}
+				case *ast.IncDecStmt:
+					ok = false
+				}
 				return true
 			}
 			switch p := stack[i].(type) {
